@@ -139,10 +139,27 @@ Qed.
 Theorem exp_spec3_repr_independent A B scale k f :
   field_map3 (gvecs 3 A B g) (exp_spec3 floorK A g scale k (repr3 A f)) = exp_spec3 floorK B g scale k (repr3 B f).
 Proof. rewrite !exp_spec3_is_index_space. apply repr3_convert. Qed.
-Theorem exp_code3_partial ac scale k f :
-  exp_code3 floorK (cube_of ac) g scale k (repr3 (cube_of ac) f) = exp_spec3 floorK (cube_of ac) g scale k (repr3 (cube_of ac) f).
+Theorem exp_code3_is_spec A scale k u : exp_code3 floorK A g scale k u = exp_spec3 floorK A g scale k u.
+Proof. reflexivity. Qed.
+Theorem exp_code3_repr_independent A B scale k f :
+  field_map3 (gvecs 3 A B g) (exp_code3 floorK A g scale k (repr3 A f)) = exp_code3 floorK B g scale k (repr3 B f).
+Proof. rewrite !exp_code3_is_spec. apply exp_spec3_repr_independent. Qed.
+Theorem exp_unconverted3_cube ac scale k f :
+  exp_unconverted3 floorK (cube_of ac) g scale k (repr3 (cube_of ac) f) = exp_spec3 floorK (cube_of ac) g scale k (repr3 (cube_of ac) f).
 Proof.
-  unfold exp_code3, exp_spec3. replace (axes_ac (cube_of ac)) with ac by (destruct ac; reflexivity).
+  unfold exp_unconverted3, exp_spec3. replace (axes_ac (cube_of ac)) with ac by (destruct ac; reflexivity).
   f_equal. f_equal. symmetry. apply repr3_convert.
 Qed.
+(* warp_image in three dimensions: in every representation, sample the image at index + displacement in samples *)
+Theorem warp3_is_index_space pad A img f : zlen img = nz -> zlen (hd [] img) = ny -> zlen (hd [] (hd [] img)) = nx ->
+  warp3 floorK pad A g img (repr3 A f)
+  = tab3 nx ny nz (fun x y z => sample3 floorK pad img (of_Z x + fst (fst f) x y z) (of_Z y + snd (fst f) x y z) (of_Z z + snd f x y z)).
+Proof.
+  intros Hiz Hiy Hix. unfold warp3. rewrite repr3_convert, repr3_cube. unfold to_cube3. cbn [nth].
+  rewrite zlen_tab3, zlen_hd_tab3, zlen_hd_hd_tab3 by lia. apply tab3_ext. intros x y z Hxr Hyr Hzr. rewrite !get3_tab3 by lia.
+  unfold grid_sample3. rewrite Hiz, Hiy, Hix. now rewrite !(unnorm_shift K Kf Kc) by lia.
+Qed.
+Theorem warp3_repr_independent pad A B img f : zlen img = nz -> zlen (hd [] img) = ny -> zlen (hd [] (hd [] img)) = nx ->
+  warp3 floorK pad A g img (repr3 A f) = warp3 floorK pad B g img (repr3 B f).
+Proof. intros H1 H2 H3. now rewrite !warp3_is_index_space. Qed.
 End Conv3.
